@@ -454,7 +454,12 @@ func (s *Storer) newAofWCloseObserver(w *AofWriter, ds *dataSet) func(args ...in
 		size := args[1].(int64)
 
 		if size == 0 {
-			ds.trimLastEmptyAof()
+			// the empty segment leaves the index and its file is removed: readers
+			// tailing it can not follow any more (the next writer creates a new
+			// file), so they end here instead of polling a deleted file forever
+			if trimmed := ds.trimLastEmptyAof(); trimmed != nil {
+				trimmed.CloseReaders()
+			}
 			return
 		}
 
